@@ -293,6 +293,19 @@ def c11_streams(tier, rng, ctx):
     sts.append(Stream("sym-malformed", "mirror", l5, judge=lambda l, o: o.startswith("N:"),
                       nontrivial=lambda l, o: o.startswith("E:"),
                       rule="every single-character deletion / insertion / substitution of well-formed expressions"))
+    # non-ASCII look-alikes: every character of a well-formed expression replaced by a character whose code point ends in the same byte
+    # (U+01xx, U+20xx, U+1F6xx), by a full-width form, and by an upper-case letter; never a grammar character, so always malformed
+    base2 = rng.sample(singles, 40 if tier == "quick" else 441) + ["d:a+x,f:a-w", "f:u+r", "a:go-rwx", "f:a+r,f:a-wx"]
+    look = set()
+    for s in base2:
+        for i, c in enumerate(s):
+            for rep in [chr(0x100 + ord(c)), chr(0x2000 + ord(c)), chr(0x1F600 + ord(c)), chr(0xFF00 + ord(c) - 0x20), c.upper() if c.upper() != c else "\u00e9"]:
+                look.add(s[:i] + rep + s[i + 1:])
+    look = sorted(look)
+    l7 = [ln(k, 0o644, 0, s) for s in look for k in ["f", "d", "lf"]]
+    sts.append(Stream("sym-lookalikes", "mirror", l7, judge=lambda l, o: o.startswith("N:"), nontrivial=lambda l, o: o.startswith("E:"), exhaustive=True,
+                      rule="well-formed expressions with one character replaced by a non-ASCII character whose code point ends in the same byte, a full-width form or an "
+                           "upper-case letter: malformed, must be rejected"))
     l6 = ["\t".join(["revoking_mode", str(a), str(b)]) for a in range(0, 512, 5) for b in range(0, 512, 7)]
     sts.append(Stream("revoking-mode", "mirror", l6))
     return sts
